@@ -15,6 +15,9 @@ pub mod c03;
 pub mod c04;
 pub mod c06;
 pub mod c09;
+pub mod c11;
+pub mod c14;
+pub mod c15;
 pub mod sem;
 pub mod c18;
 
@@ -100,9 +103,12 @@ pub fn get(id: &str) -> Option<Box<dyn Check>> {
         "C04" => Some(Box::new(c04::C04)),
         "C06" => Some(Box::new(c06::C06)),
         "C09" => Some(Box::new(c09::C09)),
+        "C11" => Some(Box::new(c11::C11)),
+        "C14" => Some(Box::new(c14::C14)),
+        "C15" => Some(Box::new(c15::C15)),
         "C18" => Some(Box::new(c18::C18)),
         _ => None,
     }
 }
 
-pub const ALL: &[&str] = &["C01", "C03", "C04", "C06", "C09", "C18"];
+pub const ALL: &[&str] = &["C01", "C03", "C04", "C06", "C09", "C11", "C14", "C15", "C18"];
